@@ -27,7 +27,8 @@ RULE = ('cases = the outcome table of the interception decision procedure, stage
         'site that is reachable: gate (6 flag sets x 7 do_intercept answer lists x insecure x connect outcome), upstream handshake '
         '(insecure x ca_file x 4 chain situations x 3 name situations, + 5 transport errors x insecure), certificate generation '
         '(5 upstream subjects x 8 cache states, + every openssl command x {exit!=0, timeout, OSError}), client side (6 flush '
-        'outcomes x 8 handshake outcomes), relay scripts (tunnel / opt-out / intercepted / answers that flip between calls); each row '
+        'outcomes x 8 handshake outcomes), relay scripts (tunnel / opt-out / intercepted / answers that flip between calls), a boundary stream '
+        '(non-ASCII and undecodable hosts, 200-byte names, odd IP spellings, ports 0/1/65535); each row '
         'is followed by a relay script (client data, flushes, upstream data) so that "nothing is relayed" is observed, not assumed; '
         'rows are crossed with CONNECT hosts (names, IPv4 and bracketed IPv6 literals): rotating in the quick tier, all hosts in the '
         'thorough tier. non-trivial = the CONNECT reached the interception decision with an upstream connection (flags, plugins '
@@ -167,6 +168,11 @@ def exn_code(e):
     if name == 'ProxyConnectionFailed': return 13
     if name in ('HttpProtocolException', 'HttpRequestRejected'): return 12
     return 90
+
+
+def dec(b):
+    """host bytes -> text for harness-side bookkeeping (the implementation does its own decoding)"""
+    return b.decode('utf-8', 'replace')
 
 
 def strip_brackets(h):
@@ -329,7 +335,7 @@ def run_impl(case):
     shutil.rmtree(certdir, ignore_errors=True)
     os.makedirs(certdir)
     host, port = case['host'], case['port']
-    hs = host.decode()
+    hs = dec(host)
     for i, ext in enumerate(('pub', 'csr', 'pem')):
         if case['cache'][i]:
             open(os.path.join(certdir, '%s.%s' % (hs, ext)), 'wb').close()
@@ -526,7 +532,7 @@ def coq_subject(peer):
 
 def coq_script(case, out):
     host = case['host']
-    stripped = strip_brackets(host.decode())
+    stripped = strip_brackets(dec(host))
     ips = [stripped.encode()] if is_ip(stripped) else []      # independent oracle for ipaddress.ip_address
     ch = case['chain']
     chain = '(ChainTrustedBy %s)' % B(ch[1].encode()) if ch[0] == 'trusted_by' else {'untrusted': 'ChainUntrusted', 'expired': 'ChainExpired'}[ch[0]]
@@ -609,12 +615,12 @@ def upstream_cert_good(case):
     from proxy.common.constants import DEFAULT_CA_FILE
     ca_file = PATHS['ca_file'] if case['flags']['ca_file'] else str(DEFAULT_CA_FILE)
     chain_ok = case['chain'][0] == 'trusted_by' and case['chain'][1] == ca_file
-    name_ok = strip_brackets(case['host'].decode()).encode() in case['names']
+    name_ok = strip_brackets(dec(case['host'])).encode() in case['names']
     return chain_ok and name_ok
 
 
 def expected_san(host):
-    s = strip_brackets(host.decode())
+    s = strip_brackets(dec(host))
     return (b'IP:' + s.encode()) if is_ip(s) else (b'DNS:' + host)
 
 
@@ -659,11 +665,16 @@ def oracle(case, out):
             want_ca = PATHS['ca_file'] if case['flags']['ca_file'] else str(DEFAULT_CA_FILE)
             if cafile != want_ca:
                 return 'upstream verified against %r instead of the configured trust store %r' % (cafile, want_ca)
-        if sni != strip_brackets(host.decode()):
+        if sni != strip_brackets(dec(host)):
             return 'server_hostname %r is not the CONNECT host %r (IPv6 literals without their brackets)' % (sni, host)
     if not engaged(case) and (wraps or cwraps or ossl):
         return 'TLS wrap / certificate generation although interception is off or a plugin opted out'
-    if case['connect']:
+    try:
+        case['host'].decode('utf-8')
+        addressable = bool(case['host']) and case['port'] != 0
+    except UnicodeDecodeError:
+        addressable = False          # the request names no origin that could be connected
+    if case['connect'] or not addressable:
         if fin['up_plain'] or fin['up_tls'] or wraps or cwraps:
             return 'activity towards an origin that could not be connected'
         return None
@@ -699,19 +710,19 @@ def oracle(case, out):
         if t[0] == 'openssl_req':
             if t[5] != b'\n[PROXY]\nsubjectAltName=' + san or not t[6]:
                 return 'self-signed leaf template does not carry subjectAltName=%s: %r' % (san.decode(), t[5])
-            if t[3] != '%s/%s.pub' % (CERTS, host.decode()):
+            if t[3] != '%s/%s.pub' % (CERTS, dec(host)):
                 return 'public key cache file is not named after the CONNECT host'
         if t[0] == 'openssl_sign':
             if t[6] != b'\nsubjectAltName=' + san:
                 return 'generated certificate does not carry subjectAltName=%s: %r' % (san.decode(), t[6])
-            if t[4] != '%s/%s.pem' % (CERTS, host.decode()):
+            if t[4] != '%s/%s.pem' % (CERTS, dec(host)):
                 return 'certificate cache file is not named after the CONNECT host'
             if (t[1], t[2]) != (PATHS['ca_cert_file'], PATHS['ca_key_file']):
                 return 'leaf not signed with the configured CA'
     if case['cache'][2] and ossl:
         return 'cached certificate not reused'
     for _, keyfile, certfile in cwraps:
-        if certfile != '%s/%s.pem' % (CERTS, host.decode()) or keyfile != PATHS['ca_signing_key_file']:
+        if certfile != '%s/%s.pem' % (CERTS, dec(host)) or keyfile != PATHS['ca_signing_key_file']:
             return 'client handshake uses %r / %r, not the certificate generated for the CONNECT host' % (certfile, keyfile)
     if cwraps and not case['cache'][2] and not [t for t in ossl if t[0] == 'openssl_sign']:
         return 'client handshake with a certificate file that was neither cached nor generated'
@@ -744,7 +755,7 @@ def oracle(case, out):
 
 
 def nontrivial(case, out):
-    return not case['connect'] and engaged(case) and bool([t for t in out['trace'] if t[0] == 'upstream_wrap'])
+    return not case['connect'] and engaged(case) and bool([t for t in out['trace'] if t[0] == 'upstream_wrap'])   # reached the upstream handshake
 
 
 def classify(case, out, failure):
@@ -764,7 +775,7 @@ PEERS = [
 
 
 def base_case(host, **kw):
-    stripped = strip_brackets(host.decode()).encode()
+    stripped = strip_brackets(dec(host)).encode()
     c = dict(kind='base', host=host, port=443, flags=dict(ALL_FLAGS), insecure=False, answers=[], connect=None,
              chain=['trusted_by', PATHS['ca_file']], names=[stripped, b'alt.' + stripped], transport=None,
              peer=PEERS[2], cache=[False, False, False], openssl=['ok', 'ok', 'ok'], flush='all', client_hs=None, events=None)
@@ -850,7 +861,7 @@ def make_case(row, host, rng):
         c['chain'] = {'good': ['trusted_by', ca_file], 'other_store': ['trusted_by', OTHER_STORE], 'untrusted': ['untrusted'], 'expired': ['expired']}[chain]
     else:
         c['chain'] = ['trusted_by', ca_file]
-    stripped = strip_brackets(host.decode()).encode()
+    stripped = strip_brackets(dec(host)).encode()
     if names is not None:
         c['names'] = {'match': [b'www.' + stripped, stripped], 'other': [b'other.example', b'x' + stripped, host + b'.evil.example'], 'none': []}[names]
     ev = default_events(c, rng, later)
@@ -882,6 +893,15 @@ def generate(rng, tier):
         for i, row in enumerate(rows):
             # names, IPv4 and IPv6 literals rotate through every stage; the first three hosts are one of each kind
             cases.append(make_case(row, HOSTS[(i + off) % 3] if i % 2 else HOSTS[(i // 2 + off) % len(HOSTS)], rng))
+    # boundary / malformed stream: hosts that are not plain ASCII names, extreme ports, undecodable hosts, port 0
+    for host, port in [(b'caf\xc3\xa9.example', 443), (b'\xff\xfe.example', 443), (b'example.com', 0), (b'a' * 200 + b'.example', 8443),
+                       (b'x_y.example', 65535), (b'1.2.3', 1), (b'[::ffff:10.0.0.1]', 443), (b'[fe80::1]', 8443), (b'0x7f.1', 443)]:
+        for row in (dict(kind='boundary'), dict(kind='boundary', _names='other'), dict(kind='boundary', answers=[False])):
+            c = make_case(row, host, rng)
+            c['port'] = port
+            if port != 443:
+                c['events'] = default_events(c, rng)
+            cases.append(c)
     return cases
 
 
